@@ -837,6 +837,7 @@ def analyse(rep: Report) -> None:
     rep.rule('R05.6', 'S entries are listed only with a duration (S@d is rendered without a guard)', floor=2)
     rep.rule('R05.7', 'functions declared to return int return no float-valued expression', floor=8)
     rep.rule('R05.8', 'the formatters behind isoDateTime / isoDuration keep the xs:dateTime / xs:duration lexical form (rules of C19)', floor=1)
+    rep.rule('R05.9', 'durations handed to isoDuration are non-negative (timeShiftBufferDepth: rules of C08)', floor=1)
     global _INDEX
     from ..index import Index
     _INDEX = Index(rep.repo, 'dashlive/mpeg/dash')
@@ -865,6 +866,10 @@ def analyse(rep: Report) -> None:
     r05_7(rep)
     from .c19 import lift_into
     lift_into(rep, 'R05.8', ('R19.1', 'R19.3', 'R19.4', 'R19.5'), 'date-time and duration formatters')
+    from ..core import lift
+    from . import c08 as _c08
+    lift(rep, 'R05.9', 'C08', _c08.analyse, ('R08.3', 'R08.4'), 'dashlive/mpeg/dash/timing.py::DashTiming.calculate_live_params',
+         'timeShiftBufferDepth >= 0 on every path', only=lambda f: f.key.startswith(('depth>=0', 'first')))
     rep.assumptions = [
         'Flask autoescapes templates named .html .htm .xml .xhtml .svg and nothing else',
         'field table: which expressions are numeric / fixed vocabulary / file-derived / free text '
